@@ -504,3 +504,5 @@ def run(chk, tier):
     chk.guard('C14.a', lambda: rule_escapes(chk, prog, tier))
     chk.guard('C14.s', lambda: rule_stringconcat(chk, prog, tier))
     chk.guard('C14.g', lambda: rule_charconst(chk, prog, tier))
+    from props import c16
+    chk.guard('C16.c', lambda: c16.rule_stringkey(chk, prog, tier))      # two literals are the same object only if all their code units agree: the pool key covers every byte
